@@ -51,6 +51,7 @@ type vfs struct {
 	// one-shot storage faults armed by the harness for exactly one operation
 	failSave   atomic.Value  // "", "ck" (checkpoints file), "wal", "sst": the next Save of such a file returns an error
 	failDelete atomic.Bool   // the next Delete returns an error
+	failWrite  atomic.Int64  // k+1: the k-th Write (from 0) on the next *.wal file that is written returns an error; 0 = off
 	fired      chan struct{} // receives one token when an armed fault has been delivered
 }
 
@@ -72,6 +73,7 @@ func (v *vfs) armSave(kind string) { v.failSave.Store(kind) }
 func (v *vfs) disarm() {
 	v.failSave.Store("")
 	v.failDelete.Store(false)
+	v.failWrite.Store(0)
 	for {
 		select {
 		case <-v.fired:
@@ -125,6 +127,20 @@ type vfile struct {
 	storage.File
 	v          *vfs
 	neverSaved bool // its Save failed: the file does not exist
+	writes     int64
+}
+
+func (f *vfile) Write(p []byte) (int, error) {
+	if !f.v.dead.Load() && kindOf(f.File.URI()) == "wal" {
+		k := f.writes
+		f.writes++
+		if f.v.failWrite.CompareAndSwap(k+1, 0) {
+			f.neverSaved = true
+			f.v.fired <- struct{}{}
+			return 0, errInjected
+		}
+	}
+	return f.File.Write(p)
 }
 
 func (f *vfile) Save() error {
@@ -138,6 +154,7 @@ func (f *vfile) Save() error {
 	}
 	err := f.File.Save()
 	if err == nil {
+		f.neverSaved = false
 		f.v.log.add("create", uriPath(f.File.URI()))
 	}
 	return err
@@ -158,6 +175,10 @@ func (f *vfile) Delete() error {
 	if f.v.failDelete.CompareAndSwap(true, false) {
 		f.v.fired <- struct{}{}
 		return errInjected
+	}
+	if !f.v.root.Exists(uriPath(f.File.URI())) {
+		// a real file system reports a missing file (the memory file system deletes silently)
+		return fmt.Errorf("remove %s: %w", f.File.URI(), fs.ErrNotExist)
 	}
 	if f.neverSaved {
 		// like removing a path that was never created on a real file system
